@@ -268,6 +268,15 @@ def freeze(e):
     return {"n": "freeze", "e": e}
 
 
+def chain(a, o1, b, o2, c):
+    """a o1 b o2 c written WITHOUT parentheses: grouped by the operators' precedences"""
+    return {"n": "chain", "a": a, "o1": o1, "b": b, "o2": o2, "c": c}
+
+
+def setprec(op, e):
+    return {"n": "setprec", "op": op, "e": e}
+
+
 def evl(e):
     """eval of the source text of e"""
     return {"n": "eval", "e": e}
@@ -385,6 +394,10 @@ def pp(e):
         return "(return %s)" % pp(e["e"])
     if n == "throw":
         return "(throw %s)" % pp(e["e"])
+    if n == "chain":
+        return "(%s %s %s %s %s)" % (pp(e["a"]), e["o1"], pp(e["b"]), e["o2"], pp(e["c"]))
+    if n == "setprec":
+        return "(%s::precedence = %s)" % (e["op"], pp(e["e"]))
     if n == "switch":
         return "(switch (%s) %s)" % (pp(e["e"]), " ".join("case %s -> %s" % (p_lv(a["p"]), pp(a["b"])) for a in e["arms"]))
     if n == "try":
